@@ -243,3 +243,29 @@ Definition spec_c01_file (c : fcase) : bool :=
   if f_compiled c then
     forallb (fun q => forallb (spec_c01_obs (f_recs c) (qc_q q) (qc_max q)) (qc_obs q)) (f_qs c)
   else true.
+
+(* ---------------------------------------------------------------- comparing two observations *)
+(* equal up to which addresses were drawn: address records are compared by (owner, type, class) only *)
+Definition blur (r : rr) : rr :=
+  if is_addr (rr_type r) then mkRR (rr_owner r) (rr_type r) (rr_class r) 0 [] else r.
+Fixpoint rr_multiset_eqb (a b : list rr) : bool :=
+  match a with
+  | [] => match b with [] => true | _ => false end
+  | x :: a' => match remove_rr x b with Some b' => rr_multiset_eqb a' b' | None => false end
+  end.
+Definition section_sim (a b : list rr) : bool := rr_multiset_eqb (map blur a) (map blur b).
+Definition question_sim (a b : list (bytes * N * N)) : bool :=
+  zip_ok (fun x y => let '(n, t, c) := x in let '(n', t', c') := y in bytes_eqb n n' && (t =? t') && (c =? c')) a b.
+Definition reply_sim (p q : reply) : bool :=
+  (p_id p =? p_id q) && Bool.eqb (p_qr p) (p_qr q) && question_sim (p_question p) (p_question q) &&
+  (p_rcode p =? p_rcode q) && Bool.eqb (p_aa p) (p_aa q) && Bool.eqb (p_tc p) (p_tc q) &&
+  section_sim (p_an p) (p_an q) && section_sim (p_ns p) (p_ns q) && section_sim (p_ex p) (p_ex q) &&
+  Bool.eqb (p_opt p) (p_opt q) && opt_bytes_eqb (p_ecs p) (p_ecs q) &&
+  zip_ok N.eqb (p_optcodes p) (p_optcodes q).
+Definition obs_sim (a b : obs) : bool :=
+  Bool.eqb (o_panic a) (o_panic b) &&
+  match o_reply a, o_reply b with
+  | Some p, Some q => reply_sim p q
+  | None, None => true
+  | _, _ => false
+  end.
